@@ -121,7 +121,7 @@ def run_groups(prop, gnames, tier, scratch, only=None):
             results.append(r)
             continue
         filt = f'verif_enum_{gname}::'
-        cmd = ['cargo', 'test', '--offline', '-p', g['crate'], '--lib', '--', filt, '--nocapture', '--test-threads', '8']
+        cmd = ['cargo', 'test', '--offline', '-p', g['crate']] + list(g.get('cargo_target', ['--lib'])) + ['--', filt, '--nocapture', '--test-threads', '8']
         env = dict(os.environ, CARGO_NET_OFFLINE='true', CARGO_TARGET_DIR=target_dir, RUST_BACKTRACE='0')
         t0 = time.time()
         tmo = max(t.get('timeout', 600) for t in tests) + 900
